@@ -9,6 +9,7 @@ package c01
 
 import (
 	"bufio"
+	"context"
 	"encoding/json"
 	"fmt"
 	"net/http"
@@ -16,6 +17,7 @@ import (
 	"path"
 	"sort"
 	"strings"
+	"time"
 
 	"github.com/go-openapi/loads"
 	"github.com/go-openapi/runtime"
@@ -39,6 +41,18 @@ type Req struct {
 	// template fits under their method: what it does to a routed request is another property's business (406), a miss
 	// stays a 404 or 405.
 	Accept string `json:"accept,omitempty"`
+	// Ctx: "cancelled" or "expired" - the request's context is already over when it is dispatched (the client went away,
+	// a deadline set further out has passed). Which handler runs is decided by description, method and path alone. (r6)
+	Ctx string `json:"ctx,omitempty"`
+}
+
+func overContext(kind string) (context.Context, context.CancelFunc) {
+	if kind == "expired" {
+		return context.WithDeadline(context.Background(), time.Unix(1, 0))
+	}
+	ctx, cancel := context.WithCancel(context.Background())
+	cancel()
+	return ctx, cancel
 }
 
 // Case is an API description and a batch of requests against it.
@@ -70,11 +84,11 @@ func InDomain(c Case) (parsedAPI, string) {
 	if c.Base != "" && !strings.HasPrefix(c.Base, "/") {
 		return api, "base path not rooted"
 	}
-	if strings.ContainsAny(c.Base, "{}%?#") || strings.Contains(c.Base, "//") {
+	if strings.ContainsAny(c.Base, "{}%?#") {
 		return api, "base path outside the generated alphabet"
 	}
-	for _, s := range api.Base {
-		if s == "." || s == ".." {
+	for _, s := range strings.Split(c.Base, "/") {
+		if s == ".." {
 			return api, "dot segment in base path"
 		}
 	}
@@ -506,6 +520,11 @@ func Check(c Case) *kit.Violation {
 			req, _ := readRequest(r)
 			if r.Accept != "" && e.Winner < 0 {
 				req.Header.Set("Accept", r.Accept)
+			}
+			if r.Ctx != "" {
+				ctx, cancel := overContext(r.Ctx)
+				defer cancel()
+				req = req.WithContext(ctx)
 			}
 			b.hits, b.seen = nil, nil
 			rec := httptest.NewRecorder()
